@@ -89,6 +89,17 @@ class Mock:
         def objective(I_, args):
             return M.script.get("objective", 0.0)
 
+        def stats(I_, args):
+            # microlp 0.5 Stats: the best proven bound and the relative gap, in user space
+            sc = M.script
+            bb = sc.get("best_bound")
+            if bb is None and sc.get("status", "Optimal") == "Optimal":
+                bb = sc.get("objective", 0.0)
+            obj = sc.get("objective", 0.0)
+            gap = None if bb is None else (0.0 if sc.get("status", "Optimal") == "Optimal" else (abs(bb - obj) / abs(obj) if obj else float("inf")))
+            opt = lambda v: Var(SOME_PATHS[0], [v]) if v is not None else Var(NONE_PATHS[0])
+            return Var("microlp::Stats", fields={"nodes_solved": 7, "lp_iterations": 40, "elapsed": Var("std::time::Duration", fields={"secs": 1, "nanos": 0}), "best_bound": opt(bb), "gap": opt(gap)})
+
         def var_value(I_, args):
             v = args[1]
             if isinstance(v, MutRef):
@@ -106,7 +117,7 @@ class Mock:
             "microlp::Problem::add_constraint": add_constraint,
             "<microlp::SolveOptions as std::default::Default>::default": options_default,
             "microlp::Problem::solve_with": solve, "microlp::Problem::solve": solve,
-            "microlp::Solution::status": status, "microlp::Solution::objective": objective, "microlp::Solution::var_value": var_value,
+            "microlp::Solution::status": status, "microlp::Solution::objective": objective, "microlp::Solution::var_value": var_value, "microlp::Solution::stats": stats,
             "microlp::Solution::iter": sol_iter,
             "<&microlp::Solution as std::iter::IntoIterator>::into_iter": sol_iter,
             "index:microlp::Solution": var_value,
@@ -344,22 +355,26 @@ def check(F, R, tier="quick", props=("C04", "C15", "C05")):
             if "C15" in props and entry == MILP:
                 st = sol.fields.get("status") if isinstance(sol, Var) else None
                 R.ob("BRIDGE-EQUIV", key0 + ":status:Optimal", isinstance(st, Var) and st.path.endswith("::Optimal"), where, "Status::Optimal is reported as %r" % (st,))
-    # ---- verdicts and options on one model (the scripts vary, the model does not matter)
+    # ---- verdicts and options on a maximised and a minimised model (the scripts vary): a stopped search with an incumbent
+    # that the proven bound does not reach (3 against a bound of 5 when maximising, of 1 when minimising) is Feasible
     md = mds[0]
     vals = scripted_values(md)
     dur = Var("std::time::Duration", fields={"secs": 3, "nanos": 0})
     option_sets = [("none", None, None), ("gap", 0.01, None), ("limit", None, dur), ("gap+limit", 0.001, dur), ("gap-zero", 0.0, None), ("gap-negative", -0.5, None), ("gap-nan", float("nan"), None), ("gap-zero+limit", 0.0, dur)]
     if "C15" in props or "C05" in props:
-        for oname, gap, limit in option_sets:
+        for (oname, gap, limit), (sense_l, md_s) in [(o_, s_) for o_ in option_sets for s_ in (("", mds[0]), ("min:", mds[1]))]:
             for status in ("Optimal", "Feasible", "Interrupted"):
                 if tier != "thorough" and oname not in ("none", "gap", "limit", "gap+limit", "gap-negative") and status != "Feasible":
                     continue
-                lm = build_model(I, md)
-                mock.reset({"status": status, "objective": 3.0, "values": vals})
+                if sense_l and status != "Feasible":
+                    continue
+                lm = build_model(I, md_s)
+                # the bridge adds the model's constant to the solver's objective: the scripted numbers are the solver's
+                mock.reset({"status": status, "objective": 3.0, "values": scripted_values(md_s), "best_bound": None if status != "Feasible" else (5.0 if md_s["sense"] == "Max" else 1.0)})
                 o = Var(OPTS, fields={"mip_gap": Var(SOME_PATHS[0], [gap]) if gap is not None else Var(NONE_PATHS[0]), "time_limit": Var(SOME_PATHS[0], [limit]) if limit is not None else Var(NONE_PATHS[0])})
                 r = I.call_fn(MILP, [lm, o])
                 n_runs += 1
-                key = "milp:options:%s:%s" % (oname, status)
+                key = "milp:options:%s%s:%s" % (sense_l, oname, status)
                 if is_unknown(r):
                     R.undecided("BRIDGE-EQUIV", key, where_m, "bridge not evaluable: %r" % (r,))
                     continue
